@@ -880,6 +880,10 @@ class FuncRun:
             # an invariant is stated in one tier's vocabulary (label prefix F: ring, G: group, L: lia/bv; none: all);
             # not assuming the others is sound
             tier = (lab or "")[:2]
+            if tier == "O:":
+                # optional ring-tier fact (ground-checked like the others): assumed only where `opt inv=<names>` asks for it
+                if self.mode != "ring" or (lab or "")[2:] not in str(self.c.opts.get("inv", "")).split(","):
+                    continue
             if tier in ("F:", "G:", "L:", "X:"):
                 want = {"F:": ("ring",), "G:": ("group",), "L:": ("lia", "bv", "ring", "group"), "X:": ("lia", "bv", "ring")}[tier]
                 if self.mode not in want:
@@ -1275,6 +1279,27 @@ class FuncRun:
         for kind, txt in self.c.other:
             if kind == "use":
                 st.assume(self.lemma_instance(ev, txt))
+            if kind == "atoms":
+                # proof hint: names a ring equality so that the case analysis of the theory solver can split on it
+                # (adds the tautology  e or not e  -- no logical content)
+                from .cparse import parse_expr
+                try:
+                    b_ = ev.bool(parse_expr(txt))
+                    if b_ is not True and b_ is not False:
+                        st.hyps.append(("or", b_, mk_not(b_)))
+                except (VerifError, KeyError):
+                    pass
+            if kind == "assumebody":
+                # an instance of a named mathematical fact over values of the body (listed as assumed in the evidence);
+                # skipped on paths where a local it names does not exist
+                from .cparse import parse_expr, split_label
+                lab, e = split_label(txt)
+                try:
+                    h = ev.bool(parse_expr(e))
+                except (VerifError, KeyError):
+                    h = True
+                st.assume(h)
+                self.V.assumed.add((self.fname, lab or "", e))
         chain = self.mode in ("ring", "group") or "chainposts" in self.c.opts
         for i, (lab, ast, txt) in enumerate(list(self.c.ensures_body) + list(self.c.ensures)):
             g = ev.bool(ast)
